@@ -68,7 +68,8 @@ fn main() {
                 histories: get("n", "10").parse().unwrap(),
                 steps: get("steps", "40").parse().unwrap(),
                 profile: get("profile", "mixed"),
-                ng: get("ng", "3").parse().unwrap(),
+                // the directed scenarios use g1..g3
+                ng: get("ng", "3").parse::<usize>().unwrap().max(if get("directed", "1") == "1" { 3 } else { 1 }),
                 cap: get("cap", "0").parse().unwrap(),
                 directed: get("directed", "1") == "1",
                 sleeps: get("sleeps", "0") == "1",
